@@ -1228,6 +1228,18 @@ func genC07(b *builder, n int) {
 		}
 		addPrint("keys", m)
 	}
+	// Go values of concrete types through Marshal -> Unmarshal into the same type
+	genGoValues(b, n/3, addPrint0)
+	// code point classes; all code points
+	genRunes(b, n, n >= 20000)
+	for _, r := range classRunes() {
+		if r%97 == 0 || r < 0x100 {
+			addPrint0("runes", "a"+string(r)+"b")
+			if r%2 == 0 {
+				addPrint0("runes", map[string]interface{}{string(r): 1, "k" + string(r): nil})
+			}
+		}
+	}
 	// the text Marshal prints must also go through the model's decoder
 	for i := 0; i < n/4; i++ {
 		v := g.goValue(2)
